@@ -329,6 +329,9 @@ def run_check(prop: str, tier: str, seed: int, replay: str | None) -> int:
     if hasattr(mod, "translate"):
         GEN.mkdir(exist_ok=True)
         problems = list(mod.translate(REPO, GEN) or [])
+        # a translator that could not read a fact off the syntax and obtained it by running the code instead says so
+        notes += [p for p in problems if p.startswith("note: ")]
+        problems = [p for p in problems if not p.startswith("note: ")]
 
     # 2. build
     infra = list(getattr(mod, "DRIVE_TARGETS", [])) + ["HugrVerif.Drive.Loop", "HugrVerif.AuditCmd"]
